@@ -40,6 +40,7 @@ type Contract struct {
 	IsIface  bool
 	NoPanic  bool // body may be checked only for panic freedom
 	Sites    []Clause // site obligations: "site <matcher>: expr"
+	RangeInv []Clause // invariant of a sync.Map.Range call in this function (over visited(k))
 	File     string
 	Line     int
 	Params   []string // for iface contracts: parameter names
@@ -83,7 +84,7 @@ var propRe = regexp.MustCompile(`^\[((?:C[0-9]+\s*)+)\]\s*(.*)$`)
 
 var keywords = map[string]bool{"func": true, "iface": true, "property": true, "use": true, "requires": true, "ensures": true,
 	"loop": true, "modifies": true, "trusted": true, "inline": true, "pure": true, "axiom": true, "lemma": true,
-	"ghost": true, "smt": true, "let": true, "chan": true, "site": true, "nopanic": true, "end": true, "note": true, "params": true}
+	"ghost": true, "smt": true, "let": true, "macro": true, "rangeinv": true, "chan": true, "site": true, "nopanic": true, "end": true, "note": true, "params": true}
 
 func (e *Engine) loadContracts(dir string, pkg *types.Package) error {
 	path := filepath.Join(dir, "verif_contracts.go")
@@ -124,12 +125,40 @@ func (e *Engine) loadContracts(dir string, pkg *types.Package) error {
 	}
 	var cur *Contract
 	pn := pkg.Name()
-	var lets [][2]string
+	var lets, macros [][2]string
+	expand := func(s string) string {
+		for i := len(lets) - 1; i >= 0; i-- {
+			name := lets[i][0]
+			if j := strings.Index(name, "("); j > 0 {
+				// parameterised macro NAME(p): replace NAME(arg) by body[p := arg]; arg must not contain unbalanced parentheses
+				base, param := name[:j], strings.TrimSuffix(name[j+1:], ")")
+				for {
+					k := regexp.MustCompile(`\b` + regexp.QuoteMeta(base) + `\(`).FindStringIndex(s)
+					if k == nil {
+						break
+					}
+					depth, e := 1, k[1]
+					for e < len(s) && depth > 0 {
+						if s[e] == '(' {
+							depth++
+						} else if s[e] == ')' {
+							depth--
+						}
+						e++
+					}
+					arg := s[k[1] : e-1]
+					body := regexp.MustCompile(`\b`+regexp.QuoteMeta(param)+`\b`).ReplaceAllLiteralString(lets[i][1], "("+arg+")")
+					s = s[:k[0]] + "(" + body + ")" + s[e:]
+				}
+				continue
+			}
+			s = regexp.MustCompile(`\b`+regexp.QuoteMeta(name)+`\b`).ReplaceAllLiteralString(s, "("+lets[i][1]+")")
+		}
+		return s
+	}
 	mkClause := func(s string, line int) (Clause, error) {
 		c := Clause{}
-		for i := len(lets) - 1; i >= 0; i-- {
-			s = regexp.MustCompile(`\b`+regexp.QuoteMeta(lets[i][0])+`\b`).ReplaceAllLiteralString(s, "("+lets[i][1]+")")
-		}
+		s = expand(s)
 		if m := propRe.FindStringSubmatch(s); m != nil {
 			c.Props = strings.Fields(m[1])
 			s = m[2]
@@ -157,13 +186,17 @@ func (e *Engine) loadContracts(dir string, pkg *types.Package) error {
 			if len(f) != 2 {
 				return fmt.Errorf("%s:%d: bad let", path, d.line)
 			}
-			v := strings.TrimSpace(f[1])
-			for i := len(lets) - 1; i >= 0; i-- {
-				v = regexp.MustCompile(`\b`+regexp.QuoteMeta(lets[i][0])+`\b`).ReplaceAllLiteralString(v, "("+lets[i][1]+")")
-			}
+			v := expand(strings.TrimSpace(f[1]))
 			lets = append(lets, [2]string{strings.TrimSpace(f[0]), v})
+		case "macro":
+			f := strings.SplitN(rest, "=", 2)
+			if len(f) != 2 {
+				return fmt.Errorf("%s:%d: bad macro", path, d.line)
+			}
+			macros = append(macros, [2]string{strings.TrimSpace(f[0]), strings.TrimSpace(f[1])})
+			lets = append([][2]string{}, macros...)
 		case "func", "iface":
-			lets = nil
+			lets = append([][2]string{}, macros...)
 			cur = &Contract{Name: pn + "." + rest, Pkg: pkg, Loops: map[int]*LoopSpec{}, File: path, Line: d.line, IsIface: kw == "iface"}
 			if kw == "iface" {
 				e.ifaceContracts[cur.Name] = cur
@@ -194,6 +227,12 @@ func (e *Engine) loadContracts(dir string, pkg *types.Package) error {
 			} else {
 				cur.Ensures = append(cur.Ensures, c)
 			}
+		case "rangeinv":
+			c, err := mkClause(rest, d.line)
+			if err != nil {
+				return err
+			}
+			cur.RangeInv = append(cur.RangeInv, c)
 		case "site":
 			c, err := mkClause(rest, d.line)
 			if err != nil {
